@@ -133,7 +133,11 @@ class ExpandedTraceback:
         self.full_traceback = full_traceback
         self.hide_filenames = hide_filenames
         self.show_filenames = show_filenames
-        self.line_number = traceback.extract_tb(exc_info[2])[-1][1]
+        frames = traceback.extract_tb(exc_info[2])
+        # Locate the error on the innermost line of the student's own files,
+        # even when it surfaced inside a mocked builtin or a library
+        student_frames = [frame for frame in frames if frame[0] in show_filenames]
+        self.line_number = (student_frames or frames)[-1][1]
         self.original_code_lines = original_code_lines
         self.student_files = student_files
 
